@@ -1222,6 +1222,193 @@ def hist_cases(ctx):
 
 
 # =============================================================================================
+# collection re-use: short histories on ONE BlockCollection object (every list-mutating method
+# the class inherits is part of its API), differential oracle against a fresh collection built
+# from list(collection) and the current attributes
+
+CH_BLOCKS = {
+    # name: (kind, burnup, flux) - all fluxes positive: no mixed-weight refusals to begin with
+    "m0": ("IC600h25c", 0.0, 1e14),
+    "m1": ("OC400h20", 5.0, 3e14),
+    "X": ("IC400h25", 10.0, 1e14),
+    "Y": ("BKIC600h25", 5.0, 2e14),  # blanket: not eligible under [fuel]
+    "Z": ("OC600h25", 10.0, 3e14),
+}
+CH_OPS_QUICK = [
+    ["rep"],
+    ["append", "X"],
+    ["extend", ["X", "Y"]],
+    ["iadd", ["Z"]],
+    ["insert", 0, "Z"],
+    ["remove", 0],
+    ["pop"],
+    ["flags", 0, "blanket"],  # a member's type flags change: eligibility under [fuel] changes
+    ["bu", 1, 7.0],
+    ["flux", 1, 2e14],
+    ["T", 1, 500.0],
+    ["wparam"],  # toggle the weightingParam attribute None <-> "flux"
+    ["vtypes"],  # toggle the valid-representative-block-types attribute None <-> [fuel]
+]
+CH_OPS_THOROUGH = CH_OPS_QUICK + [["extend", ["Y"]], ["insert", 1, "X"], ["remove", 1], ["pop", 0], ["flags", 1, "blanket"], ["flux", 0, 0.0], ["bu", 0, 12.0], ["setitem", 0, "X"], ["delitem", 0], ["clear"]]
+CH_REPS = ["Median", "Average", "AverageByComponent", "ComponentAverage1DCylinder", "FluxWeightedAverage"]
+CH_CATEGORY = {"append": "membership", "extend": "membership", "iadd": "membership", "insert": "membership", "remove": "membership", "pop": "membership", "setitem": "membership", "delitem": "membership", "clear": "membership", "flags": "member-state", "bu": "member-state", "flux": "member-state", "T": "member-state", "wparam": "attribute", "vtypes": "attribute"}
+
+
+def _ch_outcome(bc, rep):
+    """One createRepresentativeBlock on ``bc`` -> comparable description."""
+    try:
+        rb = bc.createRepresentativeBlock()
+    except (ValueError, IndexError, ZeroDivisionError, KeyError, TypeError, AttributeError, RuntimeError) as e:
+        return {"status": "raises:" + type(e).__name__}
+    out = {"status": "ok", "name": rb.name, "vec": result_vector(observe_result(rep, rb, bc))}
+    if rep == "Median":
+        out["obs"] = intensive_obs(rb)
+    return out
+
+
+def _eval_chist(pool, case):
+    """case: {"kind": "chist", "rep":..., "filter":..., "ops": [...]} -> (viols, number of compared requests)."""
+    from armi.physics.neutronics import crossSectionGroupManager as X
+    from armi.reactor.flags import Flags
+    from mcverif import observe
+
+    rep, filt = case["rep"], case["filter"]
+    vs = []
+    blk = {}
+    for name, (kind, bu, fl) in CH_BLOCKS.items():
+        b = pool.block(kind, 0)
+        b.p.percentBu, b.p.flux = float(bu), float(fl)
+        blk[name] = b
+    saved_flags = {n: b.p.flags for n, b in blk.items()}
+    saved_T = {}
+    bc = make_collection(pool, rep, filt, [blk["m0"], blk["m1"]])
+    nreq = 0
+    tag = {"Median": "median", "ComponentAverage1DCylinder": "cyl"}.get(rep, "avg")
+
+    def request(step):
+        nonlocal nreq
+        nreq += 1
+        got = _ch_outcome(bc, rep)
+        gotCand = sorted(b.getName() for b in bc.getCandidateBlocks())
+        fresh = type(bc)(pool.nucs, validBlockTypes=None, averageByComponent=bc.averageByComponent)
+        fresh._validRepresentativeBlockTypes = None if bc._validRepresentativeBlockTypes is None else list(bc._validRepresentativeBlockTypes)
+        fresh.weightingParam = bc.weightingParam
+        list.extend(fresh, list(bc))
+        want = _ch_outcome(fresh, rep)
+        wantCand = sorted(b.getName() for b in fresh.getCandidateBlocks())
+        what = None
+        if gotCand != wantCand:
+            what, det = "candidates", "%s, a fresh collection of the current members %s gives %s" % (gotCand, [b.getName() for b in bc], wantCand)
+        elif got["status"] != want["status"]:
+            what, det = "outcome", "%s, fresh collection: %s" % (got["status"], want["status"])
+        elif got["status"] == "ok":
+            bad = [(k, v, want["vec"].get(k)) for k, v in got["vec"].items() if want["vec"].get(k) is None or not _close(v, want["vec"][k], rtol=1e-10, atol=1e-25)]
+            if bad or set(got["vec"]) != set(want["vec"]) or got["name"] != want["name"]:
+                what, det = "representative", "%s, fresh collection of the current members: %s" % ((bad[0] if bad else got["name"]), (want["name"]))
+            elif rep == "Median":
+                d = observe.diff(got["obs"], want["obs"], limit=2, rtol=1e-12)
+                if d:
+                    what, det = "representative", "median copy differs from the fresh collection's: %s" % d
+        if what:
+            last = [o[0] for o in case["ops"][: step + 1] if o[0] != "rep"]
+            cat = CH_CATEGORY[last[-1]] if last else "none"
+            vs.append(
+                core.viol(
+                    "c20/collection-reuse-differs-from-fresh/%s/after-%s-change/%s" % (tag, cat, what),
+                    "one %s collection (filter %s) first holding [m0, m1], request #%d after %s: %s is %s" % (rep, filt, nreq, case["ops"][: step + 1], what, det),
+                    {"kind": "chist", "rep": rep, "filter": filt, "ops": [list(o) for o in case["ops"][: step + 1]]},
+                )
+            )
+
+    try:
+        request(-1)
+        for step, op in enumerate(case["ops"]):
+            k = op[0]
+            if k == "rep":
+                request(step)
+            elif k == "append":
+                bc.append(blk[op[1]])
+            elif k == "extend":
+                bc.extend([blk[n] for n in op[1]])
+            elif k == "iadd":
+                bc += [blk[n] for n in op[1]]
+            elif k == "insert":
+                bc.insert(op[1], blk[op[2]])
+            elif k == "remove":
+                if len(bc) > op[1]:
+                    bc.remove(bc[op[1]])
+            elif k == "pop":
+                if len(bc):
+                    bc.pop(*op[1:])
+            elif k == "setitem":
+                if len(bc) > op[1]:
+                    bc[op[1]] = blk[op[2]]
+            elif k == "delitem":
+                if len(bc) > op[1]:
+                    del bc[op[1]]
+            elif k == "clear":
+                bc.clear()
+            elif k == "flags":
+                if len(bc) > op[1]:
+                    bc[op[1]].p.flags = Flags.fromString(op[2])
+            elif k == "bu":
+                if len(bc) > op[1]:
+                    bc[op[1]].p.percentBu = float(op[2])
+            elif k == "flux":
+                if len(bc) > op[1]:
+                    bc[op[1]].p.flux = float(op[2])
+            elif k == "T":
+                if len(bc) > op[1]:
+                    for c in bc[op[1]]:
+                        if c.name == "fuel":
+                            saved_T.setdefault(id(c), (c, float(c.temperatureInC)))
+                            c.setTemperature(float(op[2]))
+            elif k == "wparam":
+                bc.weightingParam = None if bc.weightingParam else "flux"
+            elif k == "vtypes":
+                bc._validRepresentativeBlockTypes = None if bc._validRepresentativeBlockTypes else [Flags.FUEL]
+            else:
+                raise ValueError(k)
+    finally:
+        for n, b in blk.items():
+            b.p.flags = saved_flags[n]
+            b.p.percentBu = 0.0
+            b.p.flux = 0.0
+            pool._x.pop(id(b), None)
+        for c, T in saved_T.values():
+            c.setTemperature(T)
+    return vs, nreq
+
+
+def _eval_chist_chunk(item):
+    pool = Pool()
+    vs, n, nh = [], 0, 0
+    for case in item["cases"]:
+        v, k = _eval_chist(pool, case)
+        vs += v
+        n += k
+        nh += 1
+    kept, per = [], {}
+    for v in vs:
+        per[v["key"]] = per.get(v["key"], 0) + 1
+        if per[v["key"]] <= 2:
+            kept.append(v)
+    return kept, nh, n, per
+
+
+def chist_cases(ctx):
+    ops = CH_OPS_QUICK if ctx.quick else CH_OPS_THOROUGH
+    depth = 3
+    out = []
+    for rep in CH_REPS:
+        for filt in (None, ["fuel"]):
+            for n in range(1, depth + 1):
+                for pre in itertools.product(ops, repeat=n - 1):
+                    out.append({"kind": "chist", "rep": rep, "filter": filt, "ops": [list(o) for o in pre] + [["rep"]]})
+    return out
+
+
+# =============================================================================================
 
 
 def evaluate(case):
@@ -1238,6 +1425,8 @@ def evaluate(case):
         return _eval_mgr(case)[0]
     if k == "hist":
         return _eval_hist(case)[0]
+    if k == "chist":
+        return _eval_chist(Pool(), case)[0]
     raise ValueError(k)
 
 
@@ -1300,6 +1489,21 @@ def run(ctx):
     hv.sort(key=lambda v: len(v["case"]["ops"]))
     ctx.add_violations(_cap(hv))
     ctx.count("reuse_histories", nh)
+    # ---- collection re-use histories
+    cc = chist_cases(ctx)
+    citems = ctx.order([{"cases": cc[i : i + 60]} for i in range(0, len(cc), 60)])
+    nch = nreq = 0
+    cv = []
+    for v, k, n, per_ in core.pmap(MOD, "_eval_chist_chunk", citems, chunksize=1):
+        cv += v
+        nch += k
+        nreq += n
+        for kk, c in per_.items():
+            ctx.count("violations_" + kk, c)
+    cv.sort(key=lambda v: len(v["case"]["ops"]))
+    ctx.add_violations(_cap(cv))
+    ctx.count("collection_reuse_histories", nch)
+    ctx.count("collection_reuse_requests_compared_with_fresh_collection", nreq)
     ctx.count("reuse_uses_compared_with_fresh_build", nuses)
     ctx.samples = [
         {"kind": "labels", "labels": ["A", "a", "Zz", "dA"]},
@@ -1307,11 +1511,12 @@ def run(ctx):
         {"kind": "coll", "members": sets[-1][0], "rep": sets[-1][1][0], "filter": None, "variant": "dup"},
         mc[0],
         hc[len(hc) // 2],
+        cc[len(cc) // 2],
     ]
     ctx.coverage.update(
-        evaluations=nlab + nenv + nev + nm + nh,
-        distinct_nontrivial=nnt + nm + nlab - 26 + nh - len(HIST_INITS),
-        rule="labels: every one- and two-letter label over [A-Za-z] (the 26 upper-case single letters counted trivial); collections: every multiset of 1-3 member states (kind x burnup x flux) within the pool bounds x representation x filter x variant {base, duplicated, rescaled}, one real createRepresentativeBlock call each, distinct by construction, non-trivial = at least two eligible members in different states; manager: one generated core per (xs assignment, design, burnup pattern, bounds, exclusion setting), representation/flux pattern rotating; re-use: every history of at most 3 (quick) / 4 (thorough) operations ending in a use over {change representation, toggle block-type exclusion, change bu/temp bounds, toggle an explicit crossSectionControl entry, new manager on the same settings, interactBOL, use, change a block's burnup / fuel temperature} from 3 initial configurations on the SAME settings and manager objects, every use compared with a fresh settings+manager build of what is in effect (the use-only history of each initial configuration counted trivial)",
+        evaluations=nlab + nenv + nev + nm + nh + nch,
+        distinct_nontrivial=nnt + nm + nlab - 26 + nh - len(HIST_INITS) + nch - 2 * len(CH_REPS),
+        rule="labels: every one- and two-letter label over [A-Za-z] (the 26 upper-case single letters counted trivial); collections: every multiset of 1-3 member states (kind x burnup x flux) within the pool bounds x representation x filter x variant {base, duplicated, rescaled}, one real createRepresentativeBlock call each, distinct by construction, non-trivial = at least two eligible members in different states; manager: one generated core per (xs assignment, design, burnup pattern, bounds, exclusion setting), representation/flux pattern rotating; re-use: every history of at most 3 (quick) / 4 (thorough) operations ending in a use over {change representation, toggle block-type exclusion, change bu/temp bounds, toggle an explicit crossSectionControl entry, new manager on the same settings, interactBOL, use, change a block's burnup / fuel temperature} from 3 initial configurations on the SAME settings and manager objects, every use compared with a fresh settings+manager build of what is in effect (the use-only history of each initial configuration counted trivial); collection re-use: every history of at most 3 operations ending in createRepresentativeBlock on ONE collection object over {createRepresentativeBlock, append, extend, +=, insert, remove, pop, change a member's flags/burnup/flux/fuel temperature, toggle weightingParam, toggle the valid-block-type attribute} (+ setitem/delitem/clear and more positions in thorough) x 5 representations x filter {none,[fuel]}, every request compared with a fresh collection of list(collection) and the current attributes (the request-only history counted trivial)",
         exhaustive=True,
         member_sets=len(sets),
         member_kinds=list(KINDS_QUICK if ctx.quick else KINDS_THOROUGH),
@@ -1319,6 +1524,7 @@ def run(ctx):
         filters=filters,
         manager_cores=nm,
         reuse_histories=nh,
+        collection_reuse_histories=nch,
     )
     ctx.assumptions += [
         "member values come from finite alphabets: 2 compositions x fuel temperature {600,400} x height {25,20} (+ blanket, plenum, centre block with symmetry factor 3), burnup {0,5,10}, flux {0,1e14,3e14}; sets of at most 3 members (plus their duplication)",
